@@ -38,9 +38,18 @@ func place(v []float32, off int, guard bool) []float32 {
 	n := len(v)
 	if !guard {
 		buf := make([]float32, n+32)
+		// what lies around the vector is not part of it: recognisable garbage before and after, and for every other
+		// offset the slice keeps its spare capacity (a vector cut out of a larger buffer, grown by append, or decoded
+		// into a pooled slice) - a kernel must go by the length
+		for i := range buf {
+			buf[i] = 7777.25
+		}
 		base := uintptr(unsafe.Pointer(&buf[0]))
 		skip := int((64-base%64)%64) / 4
 		out := buf[skip+off : skip+off+n : skip+off+n]
+		if off%2 == 1 {
+			out = buf[skip+off : skip+off+n]
+		}
 		copy(out, v)
 		return out
 	}
